@@ -129,6 +129,10 @@ struct Log {
     sums: Vec<u32>, // state_sum after every iteration (silent tuning runs only; below 2^32)
     lite: bool, // long runs: no whole-memory diff, periodic `snap` events so that the trace can be validated in shards
     pend_at_exit: bool,
+    iter_sched: std::collections::VecDeque<(u64, Vec<String>)>, // re-driven runs: (iterations executed before the poll, lines)
+    stall_at: u64,
+    stall: u64,
+    redriven: bool,
     snap_every: u64, // full-mode runs: a `snap` event with the WHOLE memory every n iterations (0 = never)
 }
 fn mix(h: u64, x: u64) -> u64 {
@@ -166,6 +170,20 @@ impl Log {
             let _ = verif_hooks::sink_take();
         }
         let mut batch: Vec<String> = if self.poll_no < self.schedule.len() { self.schedule[self.poll_no].clone() } else { Vec::new() };
+        // re-driven runs: a batch is due after the recorded number of iterations - or, when the run makes no
+        // progress (paused), at the next poll: the recorded polls then followed one another without iterations
+        if self.iters == self.stall_at {
+            self.stall += 1;
+        } else {
+            self.stall_at = self.iters;
+            self.stall = 0;
+        }
+        if self.iter_sched.front().map(|f| f.0 <= self.iters || self.stall >= 2).unwrap_or(false) {
+            batch = self.iter_sched.pop_front().map(|f| f.1).unwrap_or_default();
+        } else if self.redriven && self.iter_sched.is_empty() && self.stall > 2000 && !self.stop_sent {
+            batch.push("cmd:stop".to_string()); // paused for good: end the run
+            self.stop_sent = true;
+        }
         if !self.stop_sent && (self.iters >= self.max_iters || self.poll_no >= self.schedule.len() + self.extra_polls_after_schedule && self.extra_polls_after_schedule > 0) {
             batch.push("cmd:stop".to_string());
             self.stop_sent = true;
@@ -321,6 +339,11 @@ pub fn run_elf(elf_path: &str, prog_args: &str, log: Option<&str>, schedule: Vec
     *emu::setting::ENABLE_WAIT_START.write().unwrap() = false;
     let mut cpu = Cpu::new();
     emu::elf::load(elf_path.to_string(), &mut cpu, prog_args.to_string());
+    run_cpu(cpu, log, schedule, Default::default(), max_iters, extra_polls, first_id, lite, snap_every)
+}
+/// Cpu::run on a prepared Cpu with the logging / line-injection hooks installed.
+#[allow(clippy::too_many_arguments)]
+pub fn run_cpu(mut cpu: Cpu, log: Option<&str>, schedule: Vec<Vec<String>>, iter_sched: std::collections::VecDeque<(u64, Vec<String>)>, max_iters: u64, extra_polls: usize, first_id: u64, lite: bool, snap_every: u64) -> Result<RunSummary> {
     let (out_tx, _out_rx) = mpsc::channel::<String>();
     let (in_tx, in_rx) = mpsc::channel::<String>();
     cpu.vh_attach_socket(Socket::from_channels(out_tx, in_rx));
@@ -331,7 +354,7 @@ pub fn run_elf(elf_path: &str, prog_args: &str, log: Option<&str>, schedule: Vec
     };
     let lg = Rc::new(RefCell::new(Log {
         w, id: first_id, shadow: None, schedule, poll_no: 0, batch: Vec::new(), in_tx, iters: 0, max_iters, stop_sent: false, exit_addr: cpu.exit_addr,
-        h_pcst: 0, h_msgs: 0, n_msgs: 0, extra_polls_after_schedule: extra_polls, log_every_poll: false, sums: Vec::new(), lite, pend_at_exit: false, snap_every,
+        h_pcst: 0, h_msgs: 0, n_msgs: 0, extra_polls_after_schedule: extra_polls, log_every_poll: false, sums: Vec::new(), lite, pend_at_exit: false, snap_every, stall_at: u64::MAX, stall: 0, redriven: !iter_sched.is_empty(), iter_sched,
     }));
     let (l1, l2, l3) = (lg.clone(), lg.clone(), lg.clone());
     verif_hooks::set_on_poll(Some(Box::new(move |c: &mut Cpu| l1.borrow_mut().on_poll(c))));
@@ -684,7 +707,7 @@ pub fn run_run_program(args: &Args) -> Result<()> {
     ] };
     if thorough && !c15 {
         progs.push((prog_count(44_100, 5), 600_000, true)); // five thresholds
-        progs.push((prog_timer(9000, 200, 0x4b), 400_000, true)); // clock/8192, long
+        progs.push((prog_timer(9000, 200, 0x4b), 400_000, false)); // clock/8192, long: full trace with snapshots
         progs.push((prog_count(17_700, 2), 300_000, true));
         progs.push((prog_io(400, &text, ""), 100_000, false));
         progs.push((prog_timer(1500, 200, 0x49), 200_000, false));
@@ -716,8 +739,17 @@ pub fn run_run_program(args: &Args) -> Result<()> {
     let mut nprog = 0;
     let busy_flag = std::sync::Arc::new(std::sync::atomic::AtomicBool::new(false));
     for (pi, (p, max_iters, lite)) in progs.iter().enumerate() {
-        let log = format!("{}/thr_{}_{:02}.ndjson", outdir, if *lite { "lite" } else { "run" }, pi);
-        let s1 = run_program_x(p, &elf_path, Some(&log), vec![], *max_iters, 0, &mut rng, 0, *lite)?;
+        // a long run of a program that writes peripheral registers cannot be validated in the lite projection (the
+        // guest's stores are not in a lite trace): it is logged in full, with whole-memory snapshots for sharding
+        let long_full = !*lite && *max_iters >= 400_000;
+        let log = format!("{}/thr_{}_{:02}.ndjson", outdir, if *lite { "lite" } else if long_full { "run_ex_p" } else { "run" }, pi);
+        let s1 = if long_full {
+            let file = elf_of(p, &mut rng);
+            std::fs::write(&elf_path, &file)?;
+            run_elf(&elf_path, &p.args, Some(&log), vec![], *max_iters, 0, 0, false, 300)?
+        } else {
+            run_program_x(p, &elf_path, Some(&log), vec![], *max_iters, 0, &mut rng, 0, *lite)?
+        };
         total_events += s1.events;
         nprog += 1;
         if c15 || small {
@@ -790,6 +822,70 @@ pub fn run_run_program(args: &Args) -> Result<()> {
     let _ = std::fs::remove_file(&elf_path);
     eprintln!("{{\"driver\":\"run-program\",\"events\":{},\"programs\":{},\"runs\":{}}}", total_events, nprog, nprog * 5);
     Ok(())
+}
+
+// ------------------------------------------------------------------------------------------------
+// replay of a recorded run-loop trace that starts with its `load` event: the loaded state (registers, whole
+// memory, exit address) and the control lines - each batch at the poll that follows the same number of
+// executed iterations - are the inputs; everything else is produced again by the current tree.
+// ------------------------------------------------------------------------------------------------
+pub fn redrive_run(evs: &[serde_json::Value], out: &str, lite: bool, first_id: u64) -> Result<bool> {
+    let u = |v: &serde_json::Value| v.as_u64().unwrap_or(0);
+    let e0 = &evs[0];
+    if e0["k"] != "load" || !e0["exit"].is_array() {
+        return Ok(false);
+    }
+    *emu::setting::ENABLE_PRINT_OPCODE.write().unwrap() = false;
+    *emu::setting::ENABLE_PRINT_MESSAGES.write().unwrap() = false;
+    *emu::setting::ENABLE_WAIT_START.write().unwrap() = false;
+    let mut cpu = Cpu::new();
+    let pre: Vec<u32> = e0["pre"].as_array().ok_or_else(|| anyhow!("pre"))?.iter().map(|x| u(x) as u32).collect();
+    for i in 0..8 {
+        cpu.er[i] = (pre[2 * i] << 16) | pre[2 * i + 1];
+    }
+    cpu.vh_set_ccr(pre[16] as u8);
+    cpu.exit_addr = ((u(&e0["exit"][0]) << 16) | u(&e0["exit"][1])) as u32;
+    for run in e0["pk"].as_array().ok_or_else(|| anyhow!("pk"))? {
+        let st = u(&run[0]) as u32;
+        for (i, b) in run[1].as_array().ok_or_else(|| anyhow!("run"))?.iter().enumerate() {
+            let a = st + i as u32;
+            let v = u(b) as u8;
+            match a {
+                VEC_LO..=VEC_HI => cpu.bus.exception_handling_vector[(a - VEC_LO) as usize] = v,
+                DRAM_LO..=DRAM_HI => cpu.bus.dram[(a - DRAM_LO) as usize] = v,
+                IO1_LO..=IO1_HI => cpu.bus.io_registrs1[(a - IO1_LO) as usize] = v,
+                RAM_LO..=RAM_HI => cpu.bus.memory[(a - RAM_LO) as usize] = v,
+                IO2_LO..=IO2_HI => cpu.bus.io_registrs2[(a - IO2_LO) as usize] = v,
+                _ => {}
+            }
+        }
+    }
+    let mut sched: std::collections::VecDeque<(u64, Vec<String>)> = Default::default();
+    let mut its = 0u64;
+    let mut has_ret = false;
+    for e in &evs[1..] {
+        match e["k"].as_str().unwrap_or("") {
+            "it" => its += 1,
+            "upto" => its += u(&e["its"]), // iterations of earlier parts of a cut trace (see bin/check run_prefix)
+            "poll" => {
+                let lines: Vec<String> = e["lines"].as_array().map(|a| a.iter().map(|l| String::from_utf8_lossy(&l.as_array().map(|b| b.iter().map(|x| u(x) as u8).collect::<Vec<u8>>()).unwrap_or_default()).to_string()).collect()).unwrap_or_default();
+                sched.push_back((its, lines));
+            }
+            "ret" => {
+                has_ret = true;
+                // lines of the final poll (e.g. cmd:stop) are recorded with the return
+                let lines: Vec<String> = e["lines"].as_array().map(|a| a.iter().map(|l| String::from_utf8_lossy(&l.as_array().map(|b| b.iter().map(|x| u(x) as u8).collect::<Vec<u8>>()).unwrap_or_default()).to_string()).collect()).unwrap_or_default();
+                if !lines.is_empty() {
+                    sched.push_back((its, lines));
+                }
+            }
+            _ => {}
+        }
+    }
+    // a truncated recording (no `ret`): stop after the recorded number of iterations
+    let budget = if has_ret { its + 100_000 } else { its };
+    run_cpu(cpu, Some(out), vec![], sched, budget, 0, first_id, lite, 0)?;
+    Ok(true)
 }
 
 // ------------------------------------------------------------------------------------------------
